@@ -166,6 +166,30 @@ SELFTESTS = [
 ]
 
 
+# members of classes the bounded design runs reach rarely or not at all (same judge, no expectation of their own)
+DIRECTED = [
+    # a drop that follows a report ending in an ERROR: ReportFn blocked on A, B queued, a head compaction makes B's range
+    # unreadable, C dropped, then B is delivered (range mismatch) and D must name C's range as skipped
+    {"id": "dr-drop-after-range", "steps": [
+        {"op": "block", "n": 1},
+        {"op": "append", "n": 1, "first": 1, "term": 1, "kinds": ["a", "cp"]}, {"op": "finish", "n": 1},
+        {"op": "append", "n": 1, "first": 3, "term": 1, "kinds": ["a", "cp"]},
+        {"op": "trunchead", "n": 1, "min": 1, "max": 3},
+        {"op": "append", "n": 1, "first": 5, "term": 1, "kinds": ["a", "cp"]},
+        {"op": "unblock", "n": 1}, {"op": "finish", "n": 1},
+        {"op": "append", "n": 1, "first": 7, "term": 1, "kinds": ["a", "cp"]}, {"op": "finish", "n": 1}]},
+    # the same with a report that ends in a checksum error (at-rest corruption inside B's range)
+    {"id": "dr-drop-after-storage", "steps": [
+        {"op": "block", "n": 1},
+        {"op": "append", "n": 1, "first": 1, "term": 1, "kinds": ["a", "cp"]}, {"op": "finish", "n": 1},
+        {"op": "append", "n": 1, "first": 3, "term": 1, "kinds": ["a", "cp"]},
+        {"op": "rot", "n": 1, "i": 3, "f": "d", "m": "alt1"},
+        {"op": "append", "n": 1, "first": 5, "term": 1, "kinds": ["a", "cp"]},
+        {"op": "unblock", "n": 1}, {"op": "finish", "n": 1},
+        {"op": "append", "n": 1, "first": 7, "term": 1, "kinds": ["a", "cp"]}, {"op": "finish", "n": 1}]},
+]
+
+
 # ------------------------------------------------------------------ TLC side
 def jvm_env():
     """TLC's default ParallelGC starts one GC thread per core; on a busy machine that alone makes small models
@@ -458,6 +482,9 @@ def check(pid, tier, seed):
     add("wild", wild[:max(10, len(scens) // 10)])
     for st in SELFTESTS:
         scens.append(mk_scen(st["id"], st["steps"], seed))
+    for st in DIRECTED:
+        scens.append(mk_scen(st["id"], st["steps"], seed))
+        scens.append(mk_scen(st["id"] + "w", st["steps"], seed, backend="wal"))
     scens.append(mk_scen("st-doctored", SELFTESTS[0]["steps"], seed, doctor="ok"))
     corpus_dir = os.path.join(VERIF, "corpus", pid)
     if os.path.isdir(corpus_dir):
